@@ -5,6 +5,7 @@ Require Import Nib.C14.Model Nib.C14.Spec Nib.C14.Check.
 Local Open Scope Z_scope.
 Arguments begin_block : simpl never.
 Arguments add_epoch : simpl never.
+Arguments init_genesis : simpl never.
 
 (* ---------------------------------------------------------------- one info, one block *)
 
@@ -214,6 +215,64 @@ Proof.
     + apply NoDup_insert; [exact N|]. simpl. intro X. apply has_id_ids in X. congruence.
 Qed.
 
+(* ---------------------------------------------------------------- InitGenesis at any point of a history *)
+
+(** whatever AddEpochInfo preserves, InitGenesis (this tree: every write through AddEpochInfo) preserves *)
+Lemma add_all_preserves (Q : state -> Prop) ct ch : forall gs s,
+  Q s -> (forall s a, In a gs -> Q s -> Q (fst (add_epoch s ct ch a))) -> Q (fst (add_all true s ct ch gs)).
+Proof.
+  induction gs as [|a r IH]; intros s Hs Hstep; cbn [add_all]; [exact Hs|].
+  pose proof (Hstep s a (or_introl eq_refl) Hs) as H1.
+  destruct (add_epoch s ct ch a) as [s1 ok]. cbn [fst] in H1. destruct ok; [|exact H1].
+  apply IH; [exact H1|]. intros s2 b Hb. apply Hstep. right. exact Hb.
+Qed.
+
+Lemma init_preserves (Q : state -> Prop) s ct ch gs :
+  Q s -> (forall s a, In a gs -> Q s -> Q (fst (add_epoch s ct ch a))) -> Q (fst (init_genesis true s ct ch gs)).
+Proof.
+  intros Hs Hstep. unfold init_genesis. destruct (genesis_valid gs); [|exact Hs].
+  apply add_all_preserves; assumption.
+Qed.
+
+Lemma Inv_init now s ct ch gs :
+  Inv now s -> now <= ct -> Forall (fun a => wf_info ct (added ct ch a)) gs -> Inv ct (fst (init_genesis true s ct ch gs)).
+Proof.
+  intros [W N] Ht Ha. apply init_preserves.
+  - split; [|exact N]. rewrite Forall_forall in *. intros x Hx. apply (wf_later now); auto.
+  - intros s1 a Hin I1. apply (Inv_add ct); [exact I1|lia|]. cbn [add_wf]. rewrite Forall_forall in Ha. auto.
+Qed.
+
+Lemma length_insert x s : length (insert x s) = S (length s).
+Proof.
+  induction s as [|e s IH]; [reflexivity|]. cbn [insert]. destruct (Nat.ltb (e_id x) (e_id e)); cbn [length]; [reflexivity|].
+  rewrite IH. reflexivity.
+Qed.
+
+Lemma length_add_epoch s ct ch a :
+  length (fst (add_epoch s ct ch a)) = if snd (add_epoch s ct ch a) then S (length s) else length s.
+Proof.
+  destruct (add_epoch_cases s ct ch a) as [E|[_ E]]; rewrite E; cbn [fst snd]; [reflexivity|apply length_insert].
+Qed.
+
+(** InitGenesis never removes an info; with k definitions it adds at most k, and exactly k when it reports success *)
+Lemma length_add_all ct ch : forall gs s,
+  (length s <= length (fst (add_all true s ct ch gs)) <= length s + length gs)%nat /\
+  (snd (add_all true s ct ch gs) = true -> length (fst (add_all true s ct ch gs)) = (length s + length gs)%nat).
+Proof.
+  induction gs as [|a r IH]; intro s; cbn [add_all length fst snd]; [split; [lia|intros _; lia]|].
+  pose proof (length_add_epoch s ct ch a) as L.
+  destruct (add_epoch s ct ch a) as [s1 ok]. cbn [fst snd] in L. destruct ok.
+  - destruct (IH s1) as [A B]. rewrite L in *. split; [lia|]. intro X. rewrite (B X). lia.
+  - cbn [fst snd]. rewrite L. split; [lia|discriminate].
+Qed.
+
+Lemma length_init s ct ch gs :
+  (length s <= length (fst (init_genesis true s ct ch gs)) <= length s + length gs)%nat /\
+  (snd (init_genesis true s ct ch gs) = true -> length (fst (init_genesis true s ct ch gs)) = (length s + length gs)%nat).
+Proof.
+  unfold init_genesis. destruct (genesis_valid gs); [apply length_add_all|]. cbn [fst snd]. split; [lia|discriminate].
+Qed.
+
 (* ---------------------------------------------------------------- whole traces *)
 
 Lemma run_cons s o r :
@@ -230,38 +289,24 @@ Lemma step_add s ct ch a :
                           {| o_ok := snd (add_epoch s ct ch a); o_infos := fst (add_epoch s ct ch a); o_hooks := [] |}).
 Proof. unfold step. destruct (add_epoch s ct ch a). reflexivity. Qed.
 
+Lemma step_init g s via ct ch gs :
+  step_v g s (Init via ct ch gs) =
+  (fst (init_genesis g s ct ch gs),
+   {| o_ok := via || snd (init_genesis g s ct ch gs); o_infos := fst (init_genesis g s ct ch gs); o_hooks := [] |}).
+Proof. unfold step_v. destruct (init_genesis g s ct ch gs). reflexivity. Qed.
+
 Lemma step_infos s o : o_infos (snd (step s o)) = fst (step s o).
-Proof. destruct o; [rewrite step_block|rewrite step_add]; reflexivity. Qed.
+Proof. destruct o; [rewrite step_block|rewrite step_add|rewrite step_init]; reflexivity. Qed.
 
 Lemma Inv_step now s o : Inv now s -> now <= op_time o -> add_wf o -> Inv (op_time o) (fst (step s o)).
 Proof.
-  intros I Ht Ha. destruct o as [t h|ct ch a].
+  intros I Ht Ha. destruct o as [t h|ct ch a|via ct ch gs].
   - rewrite step_block. exact (Inv_begin_block now s t h I Ht).
   - rewrite step_add. exact (Inv_add now s ct ch a I Ht Ha).
-Qed.
-
-(** MAIN (per block, along any history): the model's trace satisfies the property *)
-Theorem trace_satisfies_property : forall ops now s,
-  Inv now s -> ops_ok now ops -> P_trace s (combine ops (snd (run s ops))).
-Proof.
-  induction ops as [|o r IH]; intros now s Iv Ho; [simpl; exact I|].
-  destruct Ho as [Ht [Ha Hr]]. rewrite run_cons. cbn [snd combine].
-  pose proof (Inv_step now s o Iv Ht Ha) as I'.
-  pose proof (IH _ _ I' Hr) as Hrest.
-  destruct o as [t h|ct ch a]; cbn [P_trace]; rewrite step_infos.
-  - split; [|exact Hrest]. rewrite step_block. cbn [snd o_ok o_infos o_hooks]. exact (begin_block_P now s t h Iv Ht).
-  - exact Hrest.
+  - rewrite step_init. exact (Inv_init now s ct ch gs I Ht Ha).
 Qed.
 
 (* ---------------------------------------------------------------- lookup *)
-
-Lemma lookup_In i s e : lookup i s = Some e -> In e s /\ e_id e = i.
-Proof.
-  induction s as [|x s IH]; simpl; [discriminate|].
-  destruct (Nat.eqb (e_id x) i) eqn:E.
-  - intro H. inversion H; subst. apply Nat.eqb_eq in E. auto.
-  - intro H. destruct (IH H). auto.
-Qed.
 
 Lemma lookup_none i s : lookup i s = None <-> ~ In i (ids s).
 Proof.
@@ -308,12 +353,55 @@ Proof.
   congruence.
 Qed.
 
+Lemma NoDup_add s ct ch a : NoDup (ids s) -> NoDup (ids (fst (add_epoch s ct ch a))).
+Proof.
+  intro N. destruct (add_epoch_cases s ct ch a) as [E|[Hid E]]; rewrite E; simpl; [exact N|].
+  apply NoDup_insert; [exact N|]. simpl. intro X. apply has_id_ids in X. congruence.
+Qed.
+
+Lemma NoDup_init s ct ch gs : NoDup (ids s) -> NoDup (ids (fst (init_genesis true s ct ch gs))).
+Proof. intro N. apply (init_preserves (fun s' => NoDup (ids s'))); [exact N|]. intros s1 a _. apply NoDup_add. Qed.
+
 Lemma NoDup_step s o : NoDup (ids s) -> NoDup (ids (fst (step s o))).
 Proof.
-  intro N. destruct o as [t h|ct ch a]; [rewrite step_block|rewrite step_add]; cbn [fst].
+  intro N. destruct o as [t h|ct ch a|via ct ch gs]; [rewrite step_block|rewrite step_add|rewrite step_init]; cbn [fst].
   - rewrite ids_begin_block. exact N.
-  - destruct (add_epoch_cases s ct ch a) as [E|[Hid E]]; rewrite E; simpl; [exact N|].
-    apply NoDup_insert; [exact N|]. simpl. intro X. apply has_id_ids in X. congruence.
+  - apply NoDup_add. exact N.
+  - apply NoDup_init. exact N.
+Qed.
+
+(** an existing identifier is never touched by InitGenesis — the guard: every write of InitGenesis goes through
+    AddEpochInfo's existence check; the running clocks survive a module re-initialisation *)
+Lemma lookup_init i s ct ch gs e :
+  lookup i s = Some e -> lookup i (fst (init_genesis true s ct ch gs)) = Some e.
+Proof.
+  intro H. apply (init_preserves (fun s' => lookup i s' = Some e)); [exact H|].
+  intros s1 a _ H1. apply lookup_add. exact H1.
+Qed.
+
+(** ops that are not blocks keep every stored info and call no hook *)
+Lemma step_keep s o :
+  match o with Block _ _ => True | _ => P_keep s (o_infos (snd (step s o))) (o_hooks (snd (step s o))) end.
+Proof.
+  destruct o as [t h|ct ch a|via ct ch gs]; [exact I| |].
+  - rewrite step_add. cbn [snd o_infos o_hooks]. split; [|reflexivity]. intros i e H. apply lookup_add. exact H.
+  - rewrite step_init. cbn [snd o_infos o_hooks]. split; [|reflexivity]. intros i e H. apply lookup_init. exact H.
+Qed.
+
+(** MAIN (per block, along any history of blocks, AddEpochInfo calls and InitGenesis runs): the model's trace
+    satisfies the property *)
+Theorem trace_satisfies_property : forall ops now s,
+  Inv now s -> ops_ok now ops -> P_trace s (combine ops (snd (run s ops))).
+Proof.
+  induction ops as [|o r IH]; intros now s Iv Ho; [simpl; exact I|].
+  destruct Ho as [Ht [Ha Hr]]. rewrite run_cons. cbn [snd combine].
+  pose proof (Inv_step now s o Iv Ht Ha) as I'.
+  pose proof (IH _ _ I' Hr) as Hrest.
+  pose proof (step_keep s o) as K.
+  destruct o as [t h|ct ch a|via ct ch gs]; cbn [P_trace]; rewrite step_infos.
+  - split; [|exact Hrest]. rewrite step_block. cbn [snd o_ok o_infos o_hooks]. exact (begin_block_P now s t h Iv Ht).
+  - rewrite step_infos in K. split; [exact K|exact Hrest].
+  - rewrite step_infos in K. split; [exact K|exact Hrest].
 Qed.
 
 (* ---------------------------------------------------------------- monotone epoch numbers *)
@@ -322,7 +410,17 @@ Qed.
 Definition cur_ok (e : einfo) : Prop := e_started e = false -> e_cur e <= 1.
 
 Definition add_cur_ok (o : op) : Prop :=
-  match o with Block _ _ => True | Add ct ch a => cur_ok (added ct ch a) end.
+  match o with
+  | Block _ _ => True
+  | Add ct ch a => cur_ok (added ct ch a)
+  | Init _ ct ch gs => Forall (fun a => cur_ok (added ct ch a)) gs
+  end.
+
+Lemma cur_ok_add s ct ch a : Forall cur_ok s -> cur_ok (added ct ch a) -> Forall cur_ok (fst (add_epoch s ct ch a)).
+Proof.
+  intros Hs Ha. destruct (add_epoch_cases s ct ch a) as [E|[Hid E]]; rewrite E; simpl; [exact Hs|].
+  rewrite Forall_forall in *. intros x Hx. apply In_insert in Hx. destruct Hx as [->|Hx]; auto.
+Qed.
 
 Lemma step_info_cur t h e :
   cur_ok e ->
@@ -346,7 +444,7 @@ Proof.
   induction ops as [|o r IH]; intros s i e Hs Ho Hl.
   - exists e. simpl. repeat split; auto; lia.
   - rewrite run_cons. cbn [fst]. inversion Ho as [|? ? Ho1 Ho2]; subst.
-    destruct o as [t h|ct ch a].
+    destruct o as [t h|ct ch a|via ct ch gs].
     + assert (Hs' : Forall cur_ok (fst (step s (Block t h)))).
       { rewrite step_block, begin_block_eq. cbn [fst].
         rewrite Forall_forall in *. intros x Hx. apply in_map_iff in Hx. destruct Hx as [y [<- Hy]].
@@ -361,10 +459,15 @@ Proof.
       split; [exact L|]. split; [lia|]. split; [congruence|]. split; [congruence|]. split; [congruence|].
       intro X. apply S4. apply M3. exact X.
     + assert (Hs' : Forall cur_ok (fst (step s (Add ct ch a)))).
-      { rewrite step_add. cbn [fst]. destruct (add_epoch_cases s ct ch a) as [E|[Hid E]]; rewrite E; simpl; [exact Hs|].
-        rewrite Forall_forall in *. intros x Hx. apply In_insert in Hx. destruct Hx as [->|Hx]; auto. }
+      { rewrite step_add. cbn [fst]. apply cur_ok_add; assumption. }
       assert (Hl' : lookup i (fst (step s (Add ct ch a))) = Some e).
       { rewrite step_add. cbn [fst]. exact (lookup_add i s ct ch a e Hl). }
+      exact (IH _ _ _ Hs' Ho2 Hl').
+    + assert (Hs' : Forall cur_ok (fst (step s (Init via ct ch gs)))).
+      { rewrite step_init. cbn [fst]. apply (init_preserves (Forall cur_ok)); [exact Hs|].
+        intros s1 a Hin H1. apply cur_ok_add; [exact H1|]. cbn [add_cur_ok] in Ho1. rewrite Forall_forall in Ho1. auto. }
+      assert (Hl' : lookup i (fst (step s (Init via ct ch gs))) = Some e).
+      { rewrite step_init. cbn [fst]. exact (lookup_init i s ct ch gs e Hl). }
       exact (IH _ _ _ Hs' Ho2 Hl').
 Qed.
 
@@ -391,7 +494,7 @@ Lemma started_monotone : forall ops s i e,
 Proof.
   induction ops as [|o r IH]; intros s i e Hl Hs.
   - exists e. simpl. repeat split; auto; lia.
-  - rewrite run_cons. cbn [fst]. destruct o as [t h|ct ch a].
+  - rewrite run_cons. cbn [fst]. destruct o as [t h|ct ch a|via ct ch gs].
     + assert (Hl' : lookup i (fst (step s (Block t h))) = Some (fst (step_info t h e))).
       { rewrite step_block. cbn [fst]. rewrite lookup_begin_block, Hl. reflexivity. }
       assert (Q : e_started (fst (step_info t h e)) = true /\ e_cur e <= e_cur (fst (step_info t h e))).
@@ -400,6 +503,9 @@ Proof.
       exists e'. repeat split; auto; lia.
     + assert (Hl' : lookup i (fst (step s (Add ct ch a))) = Some e).
       { rewrite step_add. cbn [fst]. exact (lookup_add i s ct ch a e Hl). }
+      exact (IH _ _ _ Hl' Hs).
+    + assert (Hl' : lookup i (fst (step s (Init via ct ch gs))) = Some e).
+      { rewrite step_init. cbn [fst]. exact (lookup_init i s ct ch gs e Hl). }
       exact (IH _ _ _ Hl' Hs).
 Qed.
 
@@ -421,7 +527,7 @@ Proof.
   - rewrite run_cons. cbn [fst]. cbn [snd]. rewrite all_hooks_cons, proj_app.
     pose proof (NoDup_step s o N) as N'.
     destruct (lookup_In _ _ _ Hl) as [Hin Hi].
-    destruct o as [t h|ct ch a].
+    destruct o as [t h|ct ch a|via ct ch gs].
     + assert (Hl' : lookup i (fst (step s (Block t h))) = Some (fst (step_info t h e))).
       { rewrite step_block. cbn [fst]. rewrite lookup_begin_block, Hl. reflexivity. }
       assert (Hh : proj i (o_hooks (snd (step s (Block t h)))) = snd (step_info t h e)).
@@ -441,6 +547,11 @@ Proof.
       { rewrite step_add. cbn [fst]. exact (lookup_add i s ct ch a e Hl). }
       assert (Hh : o_hooks (snd (step s (Add ct ch a))) = []).
       { rewrite step_add. reflexivity. }
+      rewrite Hh. simpl. exact (IH _ _ _ N' Hl').
+    + assert (Hl' : lookup i (fst (step s (Init via ct ch gs))) = Some e).
+      { rewrite step_init. cbn [fst]. exact (lookup_init i s ct ch gs e Hl). }
+      assert (Hh : o_hooks (snd (step s (Init via ct ch gs))) = []).
+      { rewrite step_init. reflexivity. }
       rewrite Hh. simpl. exact (IH _ _ _ N' Hl').
 Qed.
 
@@ -620,7 +731,8 @@ Proof.
   induction ops as [|o r IH]; intros now Ht Ha; simpl in *; [exact I|].
   apply andb_true_iff in Ht. destruct Ht as [T1 T2]. apply andb_true_iff in Ha. destruct Ha as [A1 A2].
   split; [apply Z.leb_le; exact T1|]. split; [|apply IH; assumption].
-  destruct o; simpl in *; [exact I|apply wfb_sound; exact A1].
+  destruct o; simpl in *; [exact I|apply wfb_sound; exact A1|].
+  rewrite Forall_forall. rewrite forallb_forall in A1. intros x Hx. apply wfb_sound. auto.
 Qed.
 
 (** wherever the check evaluates the property on a trace ([pre] holds, identifiers distinct), the model is
@@ -714,6 +826,12 @@ Lemma step_f_add g s lf ct ch a :
    {| o_ok := snd (add_epoch s ct ch a); o_infos := fst (add_epoch s ct ch a); o_hooks := [] |}).
 Proof. unfold step_f. destruct (add_epoch s ct ch a). reflexivity. Qed.
 
+Lemma step_f_init g s lf via ct ch gs :
+  step_f g (s, lf) (Init via ct ch gs) =
+  ((fst (init_genesis true s ct ch gs), lf),
+   {| o_ok := via || snd (init_genesis true s ct ch gs); o_infos := fst (init_genesis true s ct ch gs); o_hooks := [] |}).
+Proof. unfold step_f. destruct (init_genesis true s ct ch gs). reflexivity. Qed.
+
 Lemma run_f_cons g sl o r :
   run_f g sl (o :: r) = (fst (run_f g (fst (step_f g sl o)) r), snd (step_f g sl o) :: snd (run_f g (fst (step_f g sl o)) r)).
 Proof. cbn [run_f]. destruct (step_f g sl o) as [sl1 x]. cbn [fst snd]. destruct (run_f g sl1 r). reflexivity. Qed.
@@ -739,9 +857,10 @@ Qed.
 Lemma run_f_no_failures g : forall ops s, snd (run_f g (s, O) ops) = snd (run s ops) /\ fst (fst (run_f g (s, O) ops)) = fst (run s ops).
 Proof.
   induction ops as [|o r IH]; intro s; [split; reflexivity|].
-  rewrite run_f_cons, run_cons. destruct o as [t h|ct ch a].
+  rewrite run_f_cons, run_cons. destruct o as [t h|ct ch a|via ct ch gs].
   - rewrite step_f_block, step_block. cbn [fst snd]. destruct (IH (fst (begin_block s t h))) as [A B]. rewrite A, B. auto.
   - rewrite step_f_add, step_add. cbn [fst snd]. destruct (IH (fst (add_epoch s ct ch a))) as [A B]. rewrite A, B. auto.
+  - rewrite step_f_init, step_init. cbn [fst snd]. destruct (IH (fst (init_genesis true s ct ch gs))) as [A B]. rewrite A, B. auto.
 Qed.
 
 (** MAIN with a failing receiver: along every history every block either is aborted and commits nothing, or is
@@ -751,7 +870,7 @@ Theorem trace_f_satisfies_property g : forall ops now s lf,
 Proof.
   induction ops as [|o r IH]; intros now s lf Iv Ho; [simpl; exact I|].
   destruct Ho as [Ht [Ha Hr]]. rewrite run_f_cons. cbn [snd combine].
-  destruct o as [t h|ct ch a]; cbn [P_trace].
+  destruct o as [t h|ct ch a|via ct ch gs]; cbn [P_trace].
   - rewrite step_f_block. cbn [op_time] in *.
     assert (Keep : Inv t s) by (destruct Iv as [W N]; split; [|exact N]; rewrite Forall_forall in *; intros x Hx; apply (wf_later now); auto).
     pose proof (Inv_begin_block now s t h Iv Ht) as Adv.
@@ -760,7 +879,10 @@ Proof.
     + destruct (existsb (hook_matches g) (snd (begin_block s t h))); cbn [fst snd o_ok o_infos o_hooks].
       * split; [split; reflexivity|]. exact (IH _ _ _ Keep Hr).
       * split; [exact (begin_block_P now s t h Iv Ht)|]. exact (IH _ _ _ Adv Hr).
-  - rewrite step_f_add. cbn [fst snd o_infos]. exact (IH _ _ _ (Inv_add now s ct ch a Iv Ht Ha) Hr).
+  - rewrite step_f_add. cbn [fst snd o_infos o_hooks]. split; [|exact (IH _ _ _ (Inv_add now s ct ch a Iv Ht Ha) Hr)].
+    split; [|reflexivity]. intros i e H. apply lookup_add. exact H.
+  - rewrite step_f_init. cbn [fst snd o_infos o_hooks]. split; [|exact (IH _ _ _ (Inv_init now s ct ch gs Iv Ht Ha) Hr)].
+    split; [|reflexivity]. intros i e H. apply lookup_init. exact H.
 Qed.
 
 (** the receivers' logs: [fan_ok] says every receiver saw exactly the calls receiver 0 saw, in the same order *)
@@ -787,18 +909,15 @@ Qed.
 Lemma length_begin_block s t h : length (fst (begin_block s t h)) = length s.
 Proof. rewrite begin_block_eq. cbn [fst]. apply map_length. Qed.
 
-Lemma length_insert x s : length (insert x s) = S (length s).
-Proof.
-  induction s as [|e s IH]; [reflexivity|]. cbn [insert]. destruct (Nat.ltb (e_id x) (e_id e)); cbn [length]; [reflexivity|].
-  rewrite IH. reflexivity.
-Qed.
-
 (** number of stored infos after each op: initial ones + accepted additions; blocks (committed or aborted) add none *)
 Fixpoint count_P (n : nat) (tr : list (op * out)) : Prop :=
   match tr with
   | [] => True
+  | (Init via _ _ gs, x) :: r =>
+      let m := length (o_infos x) in
+      (n <= m <= n + length gs)%nat /\ (via = false -> o_ok x = true -> m = (n + length gs)%nat) /\ count_P m r
   | (o, x) :: r =>
-      let n' := match o with Add _ _ _ => if o_ok x then S n else n | Block _ _ => n end in
+      let n' := match o with Add _ _ _ => if o_ok x then S n else n | _ => n end in
       length (o_infos x) = n' /\ count_P n' r
   end.
 
@@ -808,7 +927,7 @@ Theorem store_invariant g : forall ops s lf,
   count_P (length s) (combine ops (snd (run_f g (s, lf) ops))).
 Proof.
   induction ops as [|o r IH]; intros s lf N; [split; [constructor|exact I]|].
-  rewrite run_f_cons. cbn [snd combine count_P]. destruct o as [t h|ct ch a].
+  rewrite run_f_cons. cbn [snd combine count_P]. destruct o as [t h|ct ch a|via ct ch gs].
   - rewrite step_f_block.
     assert (N' : NoDup (ids (fst (begin_block s t h)))) by (rewrite ids_begin_block; exact N).
     destruct lf as [|lf]; [|destruct (existsb (hook_matches g) (snd (begin_block s t h)))]; cbn [fst snd o_ok o_infos].
@@ -824,6 +943,11 @@ Proof.
       { apply NoDup_insert; [exact N|]. cbn. intro X. apply has_id_ids in X. congruence. }
       destruct (IH _ lf N') as [A B]. rewrite length_insert in *.
       split; [constructor; assumption|split; [reflexivity|exact B]].
+  - rewrite step_f_init. cbn [fst snd o_ok o_infos].
+    pose proof (NoDup_init s ct ch gs N) as N'. destruct (length_init s ct ch gs) as [L1 L2].
+    destruct (IH _ lf N') as [A B].
+    split; [constructor; assumption|]. split; [exact L1|]. split; [|exact B].
+    intros -> X. cbn [orb] in X. exact (L2 X).
 Qed.
 
 Lemma nodupb_sound l : nodupb l = true -> NoDup l.
@@ -844,6 +968,104 @@ Qed.
 
 Lemma count_ok_sound : forall tr n, count_ok n tr = true -> count_P n (map (fun x => (fst x, to_out (snd x))) tr).
 Proof.
-  induction tr as [|[o x] r IH]; intros n H; [exact I|]. cbn [count_ok map fst snd count_P] in *.
-  apply andb_true_iff in H. destruct H as [A B]. apply Nat.eqb_eq in A. split; [exact A|]. apply IH. exact B.
+  induction tr as [|[o x] r IH]; intros n H; [exact I|]. cbn [map fst snd].
+  destruct o as [t h|ct ch a|via ct ch gs]; cbn [count_ok count_P to_out o_infos o_ok] in *.
+  - apply andb_true_iff in H. destruct H as [A B]. apply Nat.eqb_eq in A. split; [exact A|]. apply IH. exact B.
+  - apply andb_true_iff in H. destruct H as [A B]. apply Nat.eqb_eq in A. split; [exact A|]. apply IH. exact B.
+  - apply andb_true_iff in H. destruct H as [H D]. apply andb_true_iff in H. destruct H as [H C].
+    apply andb_true_iff in H. destruct H as [A B]. apply Nat.leb_le in A. apply Nat.leb_le in B.
+    split; [lia|]. split; [|apply IH; exact D]. intros -> X. rewrite X in C. cbn in C. apply Nat.eqb_eq in C. exact C.
+Qed.
+
+(* ---------------------------------------------------------------- module re-initialisation: examples and the unguarded variant *)
+
+(** a rejected genesis state (an invalid definition, a duplicated identifier) writes nothing — in either variant *)
+Lemma init_invalid_genesis_writes_nothing g s ct ch gs :
+  genesis_valid gs = false -> init_genesis g s ct ch gs = (s, false).
+Proof. intro H. unfold init_genesis. rewrite H. reflexivity. Qed.
+
+(** InitGenesis on a store that already holds every identifier of the genesis state (the upgrade route with the
+    default genesis) changes nothing at all *)
+Lemma init_on_initialised_store_is_identity ct ch : forall gs s,
+  gs <> [] -> (forall a, In a gs -> has_id (a_id a) s = true) -> init_genesis true s ct ch gs = (s, false).
+Proof.
+  intros gs s Hne Hall. unfold init_genesis. destruct (genesis_valid gs); [|reflexivity].
+  destruct gs as [|a r]; [contradiction Hne; reflexivity|]. cbn [add_all].
+  destruct (add_epoch_cases s ct ch a) as [E|[Hid E]]; rewrite E; [reflexivity|].
+  rewrite (Hall a (or_introl eq_refl)) in Hid. discriminate.
+Qed.
+
+Definition fresh (i : nat) (d : Z) : add_args :=
+  {| a_id := i; a_empty := false; a_start := None; a_dur := d; a_cur := 0; a_cur_start := 0; a_height := 0; a_started := false |}.
+Definition ex_gs : list add_args := [fresh 1 10; fresh 2 70].
+
+(** chain start (InitGenesis on the empty store), four blocks that take identifier 1 to epoch 4, then a software
+    upgrade re-running InitGenesis with the same default genesis on the live store, in the same block as (and before)
+    the epochs BeginBlocker, then one more block *)
+Definition ex_before : list op := [Init true 100 1 ex_gs; Block 100 1; Block 110 2; Block 120 3; Block 130 4].
+Definition ex_after : list op := [Init true 131 5 ex_gs; Block 131 5; Block 140 6].
+Definition ex_reinit : list op := ex_before ++ ex_after.
+
+Ltac all_forall :=
+  repeat first [apply Forall_nil | apply Forall_cons];
+  try exact I; try (unfold wf_info, cur_ok; cbn; repeat split; intros; try discriminate; lia).
+
+Example ex_reinit_ok : Inv 100 [] /\ ops_ok 100 ex_reinit /\ Forall add_cur_ok ex_reinit.
+Proof.
+  split; [split; constructor|]. split.
+  - unfold ex_reinit, ex_before, ex_after, ex_gs. cbn [app ops_ok op_time add_wf].
+    repeat split; try lia; all_forall.
+  - unfold ex_reinit, ex_before, ex_after, ex_gs. cbn [app]. all_forall.
+Qed.
+
+(** this tree: the re-initialisation is invisible — identifier 1 goes on from epoch 4 to 5, every call once *)
+Example ex_reinit_trace :
+  all_hooks (snd (run [] ex_reinit)) =
+  [BeforeStart 1 1; BeforeStart 2 1; AfterEnd 1 1; BeforeStart 1 2; AfterEnd 1 2; BeforeStart 1 3;
+   AfterEnd 1 3; BeforeStart 1 4; AfterEnd 1 4; BeforeStart 1 5] /\
+  option_map e_cur (lookup 1%nat (fst (run [] ex_reinit))) = Some 5.
+Proof. vm_compute. split; reflexivity. Qed.
+
+(** the unguarded variant (InitGenesis writes each epoch directly): on the same history, inside every hypothesis of
+    the theorems above, the epoch number of a running identifier DECREASES (4, then 1) … *)
+Lemma monotone_refuted_for_unguarded_init :
+  exists (ops : list op) (now : Z) (s : state) (i : nat) (e e' : einfo),
+    Inv now s /\ ops_ok now ops /\ Forall cur_ok s /\ Forall add_cur_ok ops /\
+    lookup i s = Some e /\ lookup i (fst (run_v false s ops)) = Some e' /\ e_cur e' < e_cur e.
+Proof.
+  exists ex_after, 130, (fst (run [] ex_before)), 1%nat.
+  eexists. eexists.
+  split; [|split; [|split; [|split; [|split; [vm_compute; reflexivity|split; [vm_compute; reflexivity|vm_compute; reflexivity]]]]]].
+  - split.
+    + vm_compute. all_forall.
+    + vm_compute. repeat constructor; cbn; intros H; repeat (destruct H as [H|H]; [discriminate H|]); exact H.
+  - unfold ex_after, ex_gs. cbn [ops_ok op_time add_wf]. repeat split; try lia; all_forall.
+  - vm_compute. all_forall.
+  - unfold ex_after, ex_gs. all_forall.
+Qed.
+
+(** … BeforeEpochStart(id, 1) is delivered a SECOND time and AfterEpochEnd(id, 4) / BeforeEpochStart(id, 5) of the
+    interrupted epoch are never delivered … *)
+Lemma hooks_once_refuted_for_unguarded_init :
+  exists (ops : list op) (i : nat),
+    Inv 100 [] /\ ops_ok 100 ops /\
+    count_occ hook_eq_dec (proj i (all_hooks (snd (run_v false [] ops)))) (BeforeStart i 1) = 2%nat /\
+    count_occ hook_eq_dec (proj i (all_hooks (snd (run_v false [] ops)))) (AfterEnd i 4) = 0%nat /\
+    count_occ hook_eq_dec (proj i (all_hooks (snd (run [] ops)))) (BeforeStart i 1) = 1%nat /\
+    count_occ hook_eq_dec (proj i (all_hooks (snd (run [] ops)))) (AfterEnd i 4) = 1%nat.
+Proof.
+  exists ex_reinit, 1%nat. destruct ex_reinit_ok as [A [B _]].
+  split; [exact A|]. split; [exact B|]. vm_compute. repeat split; reflexivity.
+Qed.
+
+(** … and the op itself breaks [P_keep]: a stored, running info is replaced (number, start time and height rewritten) *)
+Lemma init_keep_refuted_for_unguarded_init :
+  exists (s : state) (ct ch : Z) (gs : list add_args) (i : nat) (e e' : einfo),
+    lookup i s = Some e /\ e_started e = true /\
+    lookup i (fst (init_genesis false s ct ch gs)) = Some e' /\
+    e_cur e' < e_cur e /\ e_started e' = false /\ e_height e' <> e_height e /\
+    lookup i (fst (init_genesis true s ct ch gs)) = Some e.
+Proof.
+  exists (fst (run [] ex_before)), 131, 5, ex_gs, 1%nat. eexists. eexists.
+  vm_compute. repeat split; try reflexivity. discriminate.
 Qed.
